@@ -486,6 +486,9 @@ def cases(rng, tier):
         if rng.random() < 0.3: f = zmul(f, zpow(rng.choice(lin), rng.choice([1, 2])))
         out.append(lib_case(rng, zscal(rng.choice([1, 1, -1, -5, 2]), f), 'zero-p-adic-digits'))
     out.append(lib_case(rng, [99, 119, 21, 1], 'zero-p-adic-digits'))
+    # ---- exactly at the size limit of the recombination (25 modular factors; 24 as the control): prod (x - i), i = -12..12
+    out.append(lib_case(rng, zprod([[-i_, 1] for i_ in range(-12, 13)]), 'exactly-25-modular-factors'))
+    out.append(lib_case(rng, zprod([[-i_, 1] for i_ in range(-12, 12)]), 'exactly-24-modular-factors'))
     # ---- x^n - 1, x^n + 1
     for n in range(1, (24 if th else 12) + 1):
         out.append(lib_case(rng, [-1] + [0] * (n - 1) + [1], 'x^n-1'))
